@@ -148,7 +148,7 @@ theorem map_empty_type_counterexample :
     (∃ st', Impl.run C01.env0 5 (.seq [.NIL .timestamp, .MAP (.seq [.DROP, .PUSH .int (.num .int 0)])]) [] = .ok st' ∧
       st'.map typeOf = [.list .timestamp]) := by
   refine ⟨?_, [.list .timestamp []], C01.map_empty_counterexample.2.1, rfl⟩
-  simp [typeInstr, typeSeq, Typing.step, checkVal]
+  simp [typeInstr, typeSeq, Typing.step, checkVal, pushable]
 
 -- non-vacuity: MAP { CDR } over `map (pair int int) int` (the shape named in the property) is inside the guard,
 -- well-typed, and the hypotheses of `map_keeps_key_type` hold
@@ -163,7 +163,7 @@ example : Spec.eval true C01.env0 5 (.MAP .CDR) [mPair] = .ok [mPair] := by
 -- right combs: `UPDATE 3` changes the type of one component, `GET 0` / `UPDATE 0` are typed on every type
 example : typeInstr false (.seq [.PUSH .string (.str [97]), .UPDATEN 3, .GETN 2]) [.pair .int (.pair .nat .unit)]
     = some (.ok [.pair .string .unit]) := by
-  simp [typeInstr, typeSeq, Typing.step, checkVal, updateNTy, getNTy]
+  simp [typeInstr, typeSeq, Typing.step, checkVal, pushable, updateNTy, getNTy]
 example : typeInstr false (.seq [.GETN 0, .UNIT, .UPDATEN 0, .UNIT, .UNIT, .PAIRN 3, .UNPAIRN 2]) [.int]
     = some (.ok [.unit, .pair .unit .unit]) := by
   simp [typeInstr, typeSeq, Typing.step, updateNTy, getNTy, pairNTy, unpairNTy]
@@ -176,7 +176,7 @@ example : typeInstr false (.seq [.EDIV, .SWAP, .AND]) [.mutez, .mutez, .int] = n
 example : typeInstr false .EDIV [.mutez, .nat] = some (.ok [.option (.pair .mutez .mutez)]) := by
   simp [typeInstr, Typing.step, edivResTy, Typing.edivTy]
 example : typeInstr false (.seq [.AND, .PUSH .nat (.num .nat 3), .LSL]) [.int, .nat] = some (.ok [.nat]) := by
-  simp [typeInstr, typeSeq, Typing.step, andTy, shiftTy, checkVal]
+  simp [typeInstr, typeSeq, Typing.step, andTy, shiftTy, checkVal, pushable]
 example : typeInstr false .SUB_MUTEZ [.mutez, .mutez] = some (.ok [.option .mutez]) := by
   simp [typeInstr, Typing.step, subMutezTy]
 
